@@ -95,7 +95,7 @@ def run(run: core.Run, tier: str):
     if d:
       run.disagree("make_accumulator", {"w": lw, "x": lx, "shape": s, "use_bias": ub, "mult_out": rm}, ro, o["out"])
     n = int(np.prod(s[:-1])) + (1 if ub else 0)
-    if small(rm) and not ro["is_floating_point"] and n <= 2 ** 12:
+    if small(rm) and not ro["is_floating_point"]:
       brute.append({"op": "brute_acc", "m": rm, "out": ro, "n": n})
       bmeta.append((lw, lx, rm, s, ub, ro, n, mirrored))
   outs = core.run_driver("C17", brute)
